@@ -93,8 +93,14 @@ void poll_abort() {}
 void faults_arm(unsigned kinds) { g_fault_kinds = kinds; }
 void faults_disarm() { g_fault_kinds = 0; }
 bool fault_fired() { return g_fault_fired; }
-long live_blocks() { return 0; }
 
+bool g_in_runtime = false;
+static bool con_fault(unsigned kind) { if (!(g_fault_kinds & kind) || g_fault_fired) return false; ++g_fault_points; if (g_fault_points == g_fault_at) { g_fault_fired = true; return true; } return false; }
+} // namespace symrt
+#define RT_FAULT(kind) symrt::con_fault(kind)
+#include "alloc_hooks.inc"
+namespace symrt {
+void faults_ledger(bool on) { ledger_arm(on); }
 Harness_Reg::Harness_Reg(const char* name, void (*fn)()) {
   if (!g_harnesses) g_harnesses = new std::map<std::string, void (*)()>();
   (*g_harnesses)[name] = fn;
@@ -112,11 +118,12 @@ int main_entry(int argc, char** argv) {
     else if (k == "param") { std::string n; long v; is >> n >> v; g_params[n] = v; }
     else if (k == "input") { std::string n, v; is >> n >> v; g_values[n] = v; }
     else if (k == "label") { std::getline(is, g_want_label); }
+    else if (k == "fault_at") { is >> g_fault_at; }
   }
   if (!g_harnesses || !g_harnesses->count(harness)) { fprintf(stderr, "no such harness '%s'\n", harness.c_str()); return 2; }
   try { (*g_harnesses)[harness](); }
   catch (std::exception& e) { reproduced(std::string("unexpected exception: ") + e.what(), ""); }
-  std::cout << "REPLAY-DONE checks=" << g_checks << " reproduced=" << g_reproduced << " defaulted_inputs=" << g_defaulted << "\n";
+  std::cout << "FAULT-POINTS " << g_fault_points << " fired=" << g_fault_fired << "\n"; std::cout << "REPLAY-DONE checks=" << g_checks << " reproduced=" << g_reproduced << " defaulted_inputs=" << g_defaulted << "\n";
   return g_reproduced ? 1 : 0;
 }
 } // namespace symrt
